@@ -261,15 +261,20 @@ class AMF:
                     # choose the flow-description length so that an open-type value of the NGAP message (the IE value or the
                     # message value) is EXACTLY a multiple of 16384 octets: its fragmented length ends with the octet 00
                     import x691
-                    hits=[]
-                    for cand in range(max(fd-120,1),fd+400):
+                    def probe(cand):
                         accl=len(acc)+7+[0,17,6,11][(s.n_sessions-1)%4]+3+cand
                         nasl=4+2+accl+2+7
                         titem={'PDUSessionID':psi,'PDUSessionNASPDU':OS(bytes(nasl)),'SNSSAI':{'SST':OS(b'\x01'),'SD':OS(b'\x01\x02\x03')},'PDUSessionResourceSetupRequestTransfer':OS(bytes(len(trb)))}
-                        tt0=ies_type_of(1,29); h0=x691.EXACT_HITS
+                        tt0=ies_type_of(1,29); del x691.SIZES[:]; h0=x691.EXACT_HITS
                         mk_pdu(1,29,0,None,[ie_named(tt0,10,0,ue.amf),ie_named(tt0,85,0,ue.ran),ie_named(tt0,74,0,{'List':[titem]})])
-                        if x691.EXACT_HITS>h0: hits.append(cand)
-                    if hits: fd=hits[min(s.cfg['exact16k']-1,len(hits)-1)]
+                        return x691.EXACT_HITS>h0, sorted(n for n in x691.SIZES if n>=8000)
+                    _,big=probe(fd)
+                    # the open-type values that contain the NAS message, smallest first; each grows by one octet per octet of flow description
+                    wrappers=[n for n in big if n>fd+40][:2] or big[-2:]
+                    tgt=wrappers[min(s.cfg['exact16k']-1,len(wrappers)-1)] if wrappers else 16384
+                    guess=fd+((-tgt)%16384)
+                    hits=[c for c in range(max(guess-8,1),guess+9) if probe(c)[0]]
+                    if hits: fd=hits[0]
                     s.exact16k_fd=fd
                 fdie=(bytes([0x79])+fd.to_bytes(2,'big')+bytes(s.R.randrange(256) for _ in range(fd))) if fd else b''
                 acc+=bytes([0x29,5,1])+ue.ip+[fdie, bytes([0x22,4,1,1,2,3])+fdie+bytes([0x25,9,8])+b'internet', bytes([0x22,4,1,1,2,3])+fdie, fdie+bytes([0x25,9,8])+b'internet'][(s.n_sessions-1)%4]   # everything after the Session-AMBR is optional: the PDU address may be the last IE
